@@ -141,11 +141,15 @@ def check_property(prop, tier='quick', seed=0, jobs=None, update_baseline=False)
     prog, reg = build()
     targets = [t for t, c in reg.contracts.items() if prop in c.properties and c.verify]
     trusted = [t for t, c in reg.contracts.items() if prop in c.properties and not c.verify]
-    if not targets:
+    has_bounded = os.path.exists(os.path.join(VERIF, 'contracts', prop.lower() + '.py')) and \
+        hasattr(importlib.import_module('contracts.' + prop.lower()), 'bounded')
+    if not targets and not has_bounded:
         print('no contracts registered for %s' % prop)
         return 3
-    jobs = jobs or min(16, len(targets))
-    if jobs > 1:
+    jobs = jobs or min(16, max(1, len(targets)))
+    if not targets:
+        results = []
+    elif jobs > 1:
         with multiprocessing.get_context('fork').Pool(jobs) as pool:
             results = pool.map(_work, [(t, prop, tier) for t in targets], chunksize=1)
     else:
@@ -204,6 +208,13 @@ def check_property(prop, tier='quick', seed=0, jobs=None, update_baseline=False)
     for b in bounded:
         for v in b.get('violations', []):
             violations.append((b['name'], v['replay'], True, {'note': v.get('what', '')}))
+        for kf in b.get('known', []):
+            # a finding of a bounded stand-in: suppressed only if known_findings.json lists its id
+            listed = next((k for k in known if k.get('bounded_id') == kf['id']), None)
+            if listed is not None:
+                known_hits.append((listed, b['name'] + '/' + kf['id']))
+            else:
+                violations.append((b['name'], None, False, {'note': kf.get('what', '')}))
 
     n_ob = len(clauses)
     n_proved = sum(1 for c in clauses.values() if c['verdict'] == 'proved')
@@ -298,6 +309,21 @@ def write_evidence(prop, tier, seed, reg, results, clauses, bounded, violations,
         'samples': samples,
         'explanation': 'contract-based deductive verification: VCs generated from the AST of the real source by pyvc, discharged by z3',
     }
+    if n_ob == 0 and bounded:
+        # no deductive obligation at all: a bounded stand-in only (labelled so, level `other`)
+        level = 'other'
+        cov.update({
+            'explanation': 'bounded stand-in only (no deductive proof within reach, see DESIGN.md): the contracts are evaluated '
+                           'natively on an enumerated input space; a failing input is a replayed violation, absence of one is not a proof',
+            'evaluations': sum(b.get('inputs_tried', 0) for b in bounded),
+            'distinct_nontrivial': sum(b.get('nontrivial', 0) for b in bounded),
+            'rule': 'enumeration per stand-in (its `bound`); non-trivial = a path/query segment with a reserved character, an empty or '
+                    'non-ASCII segment, or a host with escapes / upper case; counted by the enumerator',
+            'exhaustive': all(b.get('exhaustive', False) for b in bounded),
+            'samples': [smp for b in bounded for smp in b.get('samples', [])][:8] or [{'note': 'no sample recorded'}],
+        })
+        for k in ('obligations', 'discharged'):
+            cov.pop(k, None)
     ev = {'property_id': prop, 'tier': tier, 'seed': seed, 'level': level, 'coverage': cov,
           'assumptions': assumptions + base, 'wall_s': round(wall, 2), 'violations': len(violations)}
     os.makedirs(os.path.join(VERIF, 'evidence'), exist_ok=True)
